@@ -1,5 +1,6 @@
 import Posmint.Driver.Arith
 import Posmint.Driver.KV
+import Posmint.Driver.Chain
 /-!
 `posmodel <family>`: reads one operation per line on stdin, prints one observation per line.
 Core-only (no Mathlib) so it links as a native executable.
@@ -24,5 +25,6 @@ def main (args : List String) : IO UInt32 := do
   let stdout ← IO.getStdout
   match args with
   | ["arith"] => loopStateless stdin stdout stepArith; return 0
+  | ["chain"] => loopState stdin stdout stepChain { st := none }; return 0
   | ["kv"] => loopState stdin stdout stepKV (newProg 0); return 0
   | _ => IO.eprintln "usage: posmodel <arith|kv>"; return 2
